@@ -31,16 +31,35 @@ def no_index_possible(argv):
     return n5 <= 1 and n3 <= 1
 
 
-def match_one(ad, seq):
-    """match of one (possibly linked) adapter by the documented rules, from its parts; returns (score, errors, trim function, parts)"""
+def linked_flags(flag, spec):
+    """(5' part required, 3' part required) of a linked specification by the documented rule, from its text: with -g both parts are required; with
+    -a a part is required exactly if it is anchored (^ / $) or non-internal (X); `;required` / `;optional` on a part override the default"""
+    body = spec.split("=", 1)[-1] if "=" in spec.split(";")[0].split("...")[0] else spec
+    f, b = body.split("...", 1)
+    fp, bp = f.split(";"), b.split(";")
+    fr = True if flag == "-g" else (fp[0].startswith("^") or fp[0][:1] in "Xx" or fp[0][-1:] in "Xx")
+    br = True if flag == "-g" else (bp[0].endswith("$") or bp[0][-1:] in "Xx" or bp[0][:1] in "Xx")
+    for parts, which in ((fp, 0), (bp, 1)):
+        for p_ in parts[1:]:
+            if p_.strip() == "required":
+                fr, br = (True, br) if which == 0 else (fr, True)
+            elif p_.strip() == "optional":
+                fr, br = (False, br) if which == 0 else (fr, False)
+    return fr, br
+
+
+def match_one(ad, seq, flags=None):
+    """match of one (possibly linked) adapter by the documented rules, from its parts; returns (score, errors, trim function, parts).
+    `flags`: (front required, back required) computed from the specification text (not read off the adapter object)"""
     import cutadapt.adapters as A
     if isinstance(ad, A.LinkedAdapter):
+        front_required, back_required = flags if flags is not None else (ad.front_required, ad.back_required)
         fm = ad.front_adapter.match_to(seq)
-        if ad.front_required and fm is None:
+        if front_required and fm is None:
             return None
         rest = seq[fm.rstop:] if fm is not None else seq
         bm = ad.back_adapter.match_to(rest)
-        if bm is None and (ad.back_required or fm is None):
+        if bm is None and (back_required or fm is None):
             return None
         score = (fm.score if fm else 0) + (bm.score if bm else 0)
         errors = (fm.errors if fm else 0) + (bm.errors if bm else 0)
@@ -85,6 +104,8 @@ def oracle(ctx, case, res, real):
     finally:
         logging.disable(logging.NOTSET)
     outs = {rid(r[0]): r for fn, side, recs in pipeprop.output_roles(case, real) for r in recs}
+    given = [(t, argv[i + 1]) for i, t in enumerate(argv[:-1]) if t in ("-a", "-g", "-b")]
+    flags_by_pos = {i: linked_flags(fl, sp) for i, (fl, sp) in enumerate(given) if "..." in sp} if len(given) == len(ads) else {}
     nwith = 0
     for name, s, q in case["reads1"]:
         cur_a, cur_b = 0, len(s)     # interval of the original read that remains
@@ -93,7 +114,7 @@ def oracle(ctx, case, res, real):
             cur = s[cur_a:cur_b]
             best = None
             for idx, ad in enumerate(ads):
-                r = match_one(ad, cur)
+                r = match_one(ad, cur, flags_by_pos.get(idx))
                 if r is None:
                     continue
                 key = (-r[0], r[1], idx)
